@@ -6,7 +6,6 @@ package v2
 //@ pred noNilChildren(m) = forall g api.GroupVersionKind, k string :: has(m, g) && has(m[g], k) ==> m[g][k] != nil
 
 //@ func MakeUniformObjectMap(parent, list) (m)
-//@   requires forall i int :: 0 <= i && i < len(list) ==> list[i] != nil
 //@   writes [C17,C03] fresh
 //@   safety C13
 //@   ensures [C03] m != nil && fresh(m)
@@ -14,7 +13,6 @@ package v2
 
 //@ func UniformObjectMap.InsertAll(m, parent, objects) ()
 //@   requires m != nil
-//@   requires forall i int :: 0 <= i && i < len(objects) ==> objects[i] != nil
 //@   writes [C17,C03] m, elems(m)
 //@   safety C13
 //@   invariant loop 1 [C17,C03]: forall g api.GroupVersionKind :: has(m, g) ==> m[g] == nil || fresh(m[g]) || (old(has(m, g)) && m[g] == old(m[g]))
